@@ -17,6 +17,8 @@ pub enum Dev {
     Clear(String),
     Shift(String),
     Append(String),
+    /// the vector replaced by k copies of itself (lengths that are odd / even multiples of the right one)
+    Repeat(String, usize),
     Set(String, Value),
     DropDynamic,
 }
@@ -52,6 +54,16 @@ impl Dev {
                     },
                 }
             }
+            Dev::Repeat(p, k) => match jw::get_mut(v, &jw::parse_path(p)).and_then(|x| x.as_array_mut()) {
+                Some(a) if !a.is_empty() => {
+                    let orig = a.clone();
+                    for _ in 1..*k {
+                        a.extend(orig.iter().cloned());
+                    }
+                    true
+                }
+                _ => false,
+            },
             Dev::Set(p, x) => match jw::get_mut(v, &jw::parse_path(p)) {
                 Some(slot) if slot != x => {
                     *slot = x.clone();
@@ -69,6 +81,7 @@ impl Dev {
             Dev::Clear(p) => format!("{}:clear", pc(p)),
             Dev::Shift(p) => format!("{}:shift", pc(p)),
             Dev::Append(p) => format!("{}:append", pc(p)),
+            Dev::Repeat(p, k) => format!("{}:repeat{}", pc(p), k),
             Dev::Set(p, _) => format!("{}:set", pc(p)),
             Dev::DropDynamic => "public_input.dynamic_params:drop".into(),
         }
@@ -79,6 +92,7 @@ impl Dev {
             Dev::Clear(p) => json!({"op": "clear", "path": p}),
             Dev::Shift(p) => json!({"op": "shift", "path": p}),
             Dev::Append(p) => json!({"op": "append", "path": p}),
+            Dev::Repeat(p, k) => json!({"op": "repeat", "path": p, "k": k}),
             Dev::Set(p, x) => json!({"op": "set", "path": p, "value": x}),
             Dev::DropDynamic => json!({"op": "drop_dynamic"}),
         }
@@ -90,6 +104,7 @@ impl Dev {
             "clear" => Dev::Clear(p()?),
             "shift" => Dev::Shift(p()?),
             "append" => Dev::Append(p()?),
+            "repeat" => Dev::Repeat(p()?, v.get("k")?.as_u64()? as usize),
             "set" => Dev::Set(p()?, v.get("value")?.clone()),
             "drop_dynamic" => Dev::DropDynamic,
             _ => return None,
@@ -113,6 +128,8 @@ pub fn devs(base: &Value, prefix: &str) -> Vec<Dev> {
         out.push(Dev::Pop(ps.clone()));
         out.push(Dev::Clear(ps.clone()));
         out.push(Dev::Shift(ps.clone()));
+        out.push(Dev::Repeat(ps.clone(), 2));
+        out.push(Dev::Repeat(ps.clone(), 3));
         out.push(Dev::Append(ps));
     }
     for l in jw::leaves(base) {
